@@ -30,6 +30,20 @@ func Find(p Meta, path string) Definition {
 		}
 		return Find(p, ident)
 	}
+	if rpc, ok := p.(*Rpc); ok {
+		// input and output are addressable, augments target them for instance
+		switch path {
+		case "input":
+			if rpc.input != nil {
+				return rpc.input
+			}
+		case "output":
+			if rpc.output != nil {
+				return rpc.output
+			}
+		}
+		return nil
+	}
 	if hd, ok := p.(HasDataDefinitions); ok {
 		return hd.Definition(path)
 	}
